@@ -4,5 +4,5 @@ Require Extraction.
 Require ExtrOcamlBasic.
 From WB Require Import Base.Str Base.Json Model.Key Model.Store Model.Subs Model.Entry Model.Core.
 Extraction Language OCaml.
-Extraction "model.ml" Core.step Core.run Core.init Core.final Str.dec_of_N Str.split Str.join
+Extraction "model.ml" Core.step Core.is_crash Core.run Core.init Core.final Str.dec_of_N Str.split Str.join
   Key.kseg_parse Entry.enc_persisted Entry.dec_persisted N.add N.mul N.of_nat N.to_nat.
